@@ -32,10 +32,12 @@ def rule_stride(ctx):
         for n in range(0, 9):
             _, outs = backend.fold(ctx, jl[0], [n])
             r = outs[0].result if len(outs) == 1 else None
-            v = r.fields.get("val") if isinstance(r, Adt) else r
+            v = interp.sole_int(r)
             vals.append(v)
         ikey = "%s:jump_length" % b
         K = vals[1] if isinstance(vals[1], int) else None
+        if any(not isinstance(v, int) or isinstance(v, bool) for v in vals):
+            raise AnalysisError("R-STRIDE: jump_length of %s could not be folded to numbers (%r): the analysis cannot follow this code" % (b, vals[:3]))
         if K is None or any(v != K * n for n, v in enumerate(vals)):
             res.inst(ikey, f["sp"]["file"], f["sp"]["line"], "violation")
             res.violate(ikey, "jump_length(0..8) folds to %s: not a multiple table" % vals, f["sp"]["file"], f["sp"]["line"])
